@@ -5,7 +5,7 @@ ID = 'C11'
 RULE = ('one case = a real datacake_node::Clock actor on a multi-threaded tokio runtime with the wall clock injected (hook H1), and 1-6 phases; in each phase the wall reading is fixed '
         '(advanced, stalled, or moved BACKWARDS between phases) and 1-32 tasks concurrently make 1-200 calls each, mixing get_time with register_ts of remote stamps around the wall '
         '(behind, at, within/at/beyond the drift); the processed-event log recorded by hook H3 (kind, input, clock after) is replayed event by event through the Lean model (clk-replay), '
-        'and the python oracle checks the property on what the callers saw: all replies pairwise distinct, each task strictly increasing, every get_time after an accepted register_ts greater than it; '
+        'plus burst cases: a fresh clock on a current-thread runtime with a backlog of 0..2500 enqueued get_time requests (around the queue capacity 1000) when a remote stamp is registered; ' 'and the python oracle checks the property on what the callers saw: all replies pairwise distinct, each task strictly increasing, every get_time after an accepted register_ts greater than it; '
         'non-trivial = at least 2 tasks and at least one accepted registration; distinct by hash')
 ASSUMPTIONS = ['flume channel is FIFO with a single consumer; a oneshot reply reaches the caller that asked (runtime facts, observed here, not proved)',
                'wall clock injected and constant within a phase, so that the log can be replayed exactly']
@@ -38,24 +38,35 @@ def gen_case(rng, idx, big):
     return lines
 
 
+def gen_burst(rng, idx):
+    """a backlog at and around the capacity of the actor's queue (bounded(1000)) when a remote stamp is registered"""
+    base = 117_000_000_000 + rng.below(10 ** 6) * 4
+    node_id = rng.below(3)
+    n = rng.choice([0, 1, 500, 998, 999, 1000, 1001, 1100, 2500])
+    return ['case %d node' % idx, 'clk-init %d %d' % (node_id, base),
+            'clk-burst %d %d %d %d' % (node_id, base, n, rng.choice([4, 1000, 60000, 4_000_000])), 'clk-done', 'end']
+
+
 def generate(rng, tier):
     n = dict(quick=120, thorough=3000, search=400)[tier]
-    return [gen_case(rng.fork(), i, big=(i % 10 == 0)) for i in range(n)]
+    cases = [gen_case(rng.fork(), i, big=(i % 10 == 0)) for i in range(n)]
+    nb = dict(quick=12, thorough=200, search=40)[tier]
+    return cases + [gen_burst(rng.fork(), n + i) for i in range(nb)]
 
 
 def augment(case, impl):
     out = []
     for l, o in zip(case, impl):
-        if l.startswith('clk-phase') and o.startswith('phase '):
+        if l.startswith(('clk-phase', 'clk-burst')) and o.startswith('phase '):
             log = o.split('log=')[1] or '-'
-            out.append('clk-replay %s %s' % (l.split()[1], log if log else '-'))
+            out.append('clk-replay %s %s' % (l.split()[2] if l.startswith('clk-burst') else l.split()[1], log if log else '-'))
         else:
             out.append(l)
     return out
 
 
 def canon(line, out):
-    if line.startswith('clk-phase'):
+    if line.startswith(('clk-phase', 'clk-burst')):
         return 'phase' if out.startswith(('phase ', 'replay ok')) else out
     return out
 
@@ -69,9 +80,9 @@ def oracle(case, impl):
         if out.startswith(('crash', 'panic')):
             bad.append('%s: %s' % (line, out)); continue
         if t[0] == 'clk-init': own = int(t[1])
-        if t[0] != 'clk-phase' or not out.startswith('phase '):
+        if t[0] not in ('clk-phase', 'clk-burst') or not out.startswith('phase '):
             continue
-        wall = norm_wall(int(t[1]))
+        wall = norm_wall(int(t[2] if t[0] == 'clk-burst' else t[1]))
         tasks = out.split('tasks=')[1].split(' log=')[0]
         for ti, tk in enumerate(tasks.split(';')):
             last_g, regs = None, []
@@ -95,6 +106,8 @@ def oracle(case, impl):
 def nontrivial(case, impl):
     for l, o in zip(case, impl):
         if l.startswith('clk-phase') and int(l.split()[2]) >= 2 and ',r' in o.replace('=r', ',r'):
+            return True
+        if l.startswith('clk-burst') and int(l.split()[3]) >= 2:
             return True
     return False
 
